@@ -1237,7 +1237,6 @@ def audit(out: OutputBuffer, aconf: AuditConf, sshv: Optional[int] = None, print
             if payload_txt == 'Protocol major versions differ.':
                 if sshv == 2 and aconf.ssh1:
                     ret = audit(out, aconf, 1)
-                    out.write()
                     return ret
             err = '[exception] error reading packet ({})'.format(payload_txt)
         else:
